@@ -162,8 +162,8 @@ def whileBaseline : List (String × String × String × String) := [
   ("tree_builders.py", "build_node_tree", "True", "argued: iterator stack over a finite element tree"),
   ("tree_builders.py", "build_lxml_node_tree", "True", "argued: iterator stack over a finite element tree"),
   ("tree_builders.py", "build_schema_node_tree", "True", "argued: iterator stack, schema recursion cut by the ancestors list"),
-  ("xpath1/_xpath1_functions.py", "evaluate__lang", "node is not None", "argued: node = node.parent walks the parent chain of a finite node tree (parents are set once by the tree builders, acyclic) up to None (added by the fn:lang fix 67902de)"),
-  ("xpath2/_xpath2_functions.py", "evaluate__lang", "node is not None", "argued: as xpath1 evaluate__lang: parent chain of a finite node tree"),
+  ("xpath1/_xpath1_functions.py", "evaluate__lang", "node is not None", "proved: lang_loop_terminates on every store whose parents precede their children (EPV.C03Loops, Store.WF: document-order numbering, checked on the live trees every run; on a cyclic parent chain the loop does hang)"),
+  ("xpath2/_xpath2_functions.py", "evaluate__lang", "node is not None", "proved: lang_loop_terminates (the same loop as xpath1 evaluate__lang)"),
   ("xpath1/_xpath1_operators.py", "select__predicate", "step.symbol == '[' and step.label != 'array'", "argued: walks down the finite left spine of predicates"),
   ("xpath2/_xpath2_functions.py", "select__one_or_more", "True", "argued: consumes a generator, StopIteration ends it"),
   ("xpath2/_xpath2_operators.py", "nud__quantified_expressions", "True", "argued: each iteration advances over `$var in expr`; breaks unless next token is ','; advance consumes (advance_consumes)"),
@@ -179,22 +179,22 @@ def whileBaseline : List (String × String × String × String) := [
   ("xpath30/_xpath30_functions.py", "evaluate__format_number", "v < 10", "argued: v multiplied by 10 per iteration, v > 0"),
   ("xpath30/_xpath30_functions.py", "evaluate__analyze_string", "k < len(input_string)", "argued: k advances to the end of each match or by 1"),
   ("xpath30/_xpath30_operators.py", "nud__let_expression", "True", "argued: as nud__quantified_expressions"),
-  ("xpath30/xpath30_helpers.py", "int_to_alphabetic", "num >= 0", "argued: num = num // base - 1 strictly decreases"),
+  ("xpath30/xpath30_helpers.py", "int_to_alphabetic", "num >= 0", "proved: int_to_alphabetic_total / alpha_loop_terminates (EPV.C03Loops: measure num + 1; a value for every number and non-empty alphabet)"),
   ("xpath30/xpath30_helpers.py", "format_digits", "num_digit", "argued: consumes one digit of a finite string per iteration"),
   ("xpath30/xpath30_helpers.py", "format_digits", "result and category(result[-1]) not in ('Nd', 'Nl', 'No', 'Lu', 'Ll', 'Lt', 'Lm', 'Lo')", "argued: pops one element per iteration"),
   ("xpath30/xpath30_helpers.py", "parse_datetime_marker", "pch != '#' and (not pch.isdigit())", "argued: index decreases over a finite string"),
   ("xpath31/_xpath31_operators.py", "nud__square_array_constructor", "True", "argued: each iteration parses one member; advance consumes or raises at (end)"),
   ("xpath_context.py", "iter_product", "True", "argued: odometer over finitely many finite selectors; returns when the first is exhausted"),
-  ("xpath_context.py", "iter_ancestors", "parent is not None", "argued: parent chain of a finite tree"),
-  ("xpath_context.py", "iter_preceding", "root.parent is not None", "argued: parent chain of a finite tree"),
-  ("xpath_context.py", "iter_followings", "root.parent is not None and root is not self.root", "argued: parent chain of a finite tree"),
+  ("xpath_context.py", "iter_ancestors", "parent is not None", "proved: anc_loop_terminates / iter_ancestors_total on every store whose parents precede their children (EPV.C03Loops, Store.WF: document-order numbering, checked on the live trees every run; on a cyclic parent chain the loop does hang)"),
+  ("xpath_context.py", "iter_preceding", "root.parent is not None", "proved: prec_loop_terminates (Store.WF; the descendants walk that follows is iter_descendants_total)"),
+  ("xpath_context.py", "iter_followings", "root.parent is not None and root is not self.root", "proved: foll_loop_terminates (Store.WF)"),
   ("xpath_nodes.py", "iter_lazy", "True", "argued: iterator stack over a finite tree"),
-  ("xpath_nodes.py", "iter_descendants", "True", "argued: iterator stack over a finite tree"),
+  ("xpath_nodes.py", "iter_descendants", "True", "proved in part: ElementNode.iter_descendants — iter_descendants_total (EPV.C03Loops: measure 2*pending nodes + stack height; yields the pre-order); the SchemaElementNode variant (same test, `elements` set cuts reference cycles) stays argued"),
   ("xpath_nodes.py", "apply_schema", "isinstance(root_node.parent, EtreeElementNode)", "argued: parent chain"),
   ("xpath_nodes.py", "apply_schema", "True", "argued: iterator stack over a finite tree"),
   ("xpath_nodes.py", "iter", "True", "argued: iterator stack over a finite tree"),
   ("xpath_tokens/arrays.py", "nud", "True", "argued: one member per iteration; advance consumes or raises at (end)"),
-  ("xpath_tokens/base.py", "get_argument_tokens", "True", "argued: walks down the finite left spine of ',' tokens"),
+  ("xpath_tokens/base.py", "get_argument_tokens", "True", "proved: get_argument_tokens_total (EPV.C03Loops: fuel = depth of the left spine + 1; equals the recursive argument list, IndexError exactly for a ',' token with < 2 items)"),
   ("xpath_tokens/functions.py", "nud", "True", "argued: one argument per iteration; advance consumes or raises at (end)"),
   ("xpath_tokens/functions.py", "nud", "k < min_args", "argued: k += 1 per iteration"),
   ("xpath_tokens/functions.py", "nud", "max_args is None or k < max_args", "argued: one argument per iteration; breaks unless next token is ','; advance consumes or raises at (end)"),
